@@ -351,7 +351,8 @@ def walk (strict : Bool) : List Layer → Bytes → Parent → R Bytes
       need (u8 b 0 == 0xAA && u8 b 1 == 0xAA) "snap.sap"
       fieldEq strict "snap.control" (u8 b 2) control
       fieldEq strict "snap.oui" (u8 b 3 * 65536 + be16At b 4) oui
-      if let some n := nxt then checkTag "snap" (be16At b 6) (etherTypeOf n (rest.drop 1).head?)
+      -- (a VLAN tag is named by 0x8100 here also when a second tag follows: 0x88A8 is what EthernetII derives)
+      if let some n := nxt then checkTag "snap" (be16At b 6) (etherTypeOf n none)
       walk strict rest (b.drop 8) .other
     | .llc dsap ssap => do
       need (b.length ≥ 3) "llc.short"
@@ -376,7 +377,7 @@ def walk (strict : Bool) : List Layer → Bytes → Parent → R Bytes
       fieldEq strict "sll.lltype" (be16At b 2) lltype
       fieldEq strict "sll.lllen" (be16At b 4) lllen
       bytesEq strict "sll.addr" (slice b 6 14) addr
-      if let some n := nxt then checkTag "sll" (be16At b 14) (etherTypeOf n (rest.drop 1).head?)
+      if let some n := nxt then checkTag "sll" (be16At b 14) (etherTypeOf n none)
       walk strict rest (b.drop 16) .other
     | .ah spi seq icv _ => do
       need (b.length ≥ 12) "ah.short"
@@ -416,12 +417,15 @@ def walk (strict : Bool) : List Layer → Bytes → Parent → R Bytes
       need (b.length ≥ 4) "eapol.short"
       let len := be16At b 2
       need (4 + len ≤ b.length) s!"eapol.length len={len} have={b.length - 4}"
-      -- RC4 key descriptor (IEEE 802.1X-2001 §7.6): type, key length, replay counter 8, IV 16, index, signature 16, key
-      need (!strict || len == 44 + key.length) s!"eapol.length len={len} key={key.length}"
+      -- RC4 key descriptor (IEEE 802.1X-2001 §7.6): type, key length, replay counter 8, IV 16, index, signature 16, key;
+      -- the packet body length covers the descriptor and whatever the stack carries behind the key
+      need (!strict || len ≥ 44 + key.length) s!"eapol.length len={len} key={key.length}"
       -- the key length field is derived from the key when there is one
       fieldEq strict "eapol.keylen" (be16At b 5) (if key.isEmpty then keylen else key.length)
-      need (!strict || slice b 48 (4 + len) == key) "eapol.key"
-      walk strict rest (b.drop (4 + len)) .other
+      need (!strict || slice b 48 (48 + key.length) == key) "eapol.key"
+      let t ← walk strict rest (slice b (48 + key.length) (4 + len)) .other
+      need t.isEmpty s!"eapol.length-excess len={len} excess={t.length}"
+      pure (b.drop (4 + len))
     | .opaque _ hdr trl => do
       -- a layer known only by the sizes libtins reports: header, then the inner layers, then its trailer
       need (b.length ≥ hdr + trl) "opaque.short"
